@@ -136,7 +136,23 @@ int main(int argc, char** argv) {
     size_t avail = (chunk >= 0) ? (size_t)chunk : 0;
     string data = pattern(avail, false);
     bool is_write = fn.find("write") != string::npos;
-    if (is_write || fn.find("pread") != string::npos || fn == "fgetcx") { printf("mode exact: %s is not replayed natively\n", fn.c_str()); return 2; }
+    if (fn == "fgetcx") {
+      uint8_t sval = (uint8_t)A.u("g_sval");
+      bool have = pos < len;
+      int fds[2];
+      if (::pipe(fds)) return 2;
+      if (have && ::write(fds[1], &sval, 1) != 1) return 2;
+      ::close(fds[1]);
+      FILE* f = fdopen(fds[0], "rb");
+      int got = -1; bool threw = false;
+      try { got = fgetcx(f); } catch (const exception& e) { threw = true; printf("threw: %s\n", e.what()); }
+      fclose(f);
+      printf("fgetcx: stream %s; %s %d\n", have ? "holds one byte" : "is at end-of-file", threw ? "threw" : "returned", got);
+      RCHECK(threw == !have, "fgetcx %s", threw ? "threw although a byte was available" : "returned a byte at end-of-file");
+      RCHECK(threw || got == sval, "returned %d, the stream byte is %d", got, sval);
+      return 0;
+    }
+    if (is_write || fn.find("pread") != string::npos || fn.find("_file") != string::npos) { printf("mode exact: %s is not replayed natively\n", fn.c_str()); return 2; }
     int fds[2];
     if (::pipe(fds)) return 2;
     if (avail) { if (::write(fds[1], data.data(), avail) != (ssize_t)avail) return 2; }
@@ -161,15 +177,21 @@ int main(int argc, char** argv) {
     return 0;
   }
   if (m == "dirname_basename") {
-    const auto& bytes = A.arr("in_path");
+    // path of g_plen characters whose last '/' is at g_ls (none if g_ls is npos); a second '/' earlier when there is room
+    size_t n = A.u("g_plen"), ls = A.u("g_ls");
+    if (n > 4096) { printf("path too long to replay natively\n"); return 2; }
     string p;
-    for (uint64_t b : bytes) p.push_back((char)(b ? b : 'x'));
-    size_t n = A.u("in_len", p.size());
-    if (n < p.size()) p.resize(n);
-    if (p.find('/') == string::npos) { printf("path without '/': outside the clause\n"); return 0; }
+    for (size_t i = 0; i < n; i++) p.push_back((char)('a' + i % 26));
+    if (ls < n) { p[ls] = '/'; if (ls >= 2) p[ls / 2] = '/'; }
     string d = dirname(p), b = basename(p);
     printf("dirname(\"%s\") = \"%s\", basename = \"%s\"\n", p.c_str(), d.c_str(), b.c_str());
-    RCHECK(d + "/" + b == p, "dirname + '/' + basename = \"%s\" != \"%s\"", (d + "/" + b).c_str(), p.c_str());
+    if (ls < n) {
+      RCHECK(d == p.substr(0, ls), "dirname is not the part before the last slash");
+      RCHECK(b == p.substr(ls + 1), "basename is not the part after the last slash");
+      RCHECK(d + "/" + b == p, "dirname + '/' + basename = \"%s\" != \"%s\"", (d + "/" + b).c_str(), p.c_str());
+    } else {
+      RCHECK(d.empty() && b == p, "path without a slash: dirname must be empty and basename the whole path");
+    }
     return 0;
   }
   if (m == "poll_add_twice" || m == "poll_ops") {
